@@ -38,6 +38,9 @@ CHECKS.update({
 CHECKS.update({
  "C19": ("exploration", "E3", "bounded-exhaustive enumeration: every listed request control / extended request over its field alphabets (sizes, cookies incl. a length sweep across the BER length-form boundaries, optional fields, attribute lists, the C08 filter pool) compared with RFC-derived OID, criticality and DER value; every listed response value in every combination of length forms parsed and compared with what was encoded; control lists of 0-3 controls x criticality x value through the message envelope in both directions", "6 C19", BE_NOTE),
 })
+CHECKS.update({
+ "C14": ("exploration", "E3", "bounded-exhaustive enumeration of operation sequences: every sequence of length 1-2 (3 with plain followers; thorough: all plain pairs) over 18 LdapConn/EntryStream methods x modifier subsets x server behaviours {success, rc 32, silence with timeout, disconnect}, executed through Ldap and through LdapConn on identical paused-clock runtimes over a reactive in-memory server; decoded wire transcripts, every return value, stream item and virtual duration must be identical; every method additionally once through the public constructor over a real Unix socket pair against a server thread", "6 C14", BE_NOTE + "; the in-memory lane builds LdapConn through the verif_from_parts hook"),
+})
 NA = {}
 import os
 props=[json.loads(l) for l in open('/verif/properties.jsonl')]
